@@ -100,6 +100,7 @@ type Stats struct {
 
 var (
 	active    bool
+	coarse    bool
 	permOn    bool
 	clockOn   bool
 	spinSleep bool
@@ -237,11 +238,36 @@ func Trace() []Switch {
 	return out
 }
 
+// SetCoarse switches statement yields off: only explicit Yield calls are
+// scheduling points (used when the steps of a task must be atomic).
+//
+//go:norace
+func SetCoarse(b bool) { coarse = b }
+
+// Yield is an explicit scheduling point of a task.
+//
+//go:norace
+func Yield(site int32) {
+	if !active {
+		return
+	}
+	st.Steps++
+	lastSite = site
+	if st.Steps > stepCap {
+		abort(AbortStepCap)
+	}
+	budget--
+	if budget > 0 {
+		return
+	}
+	decide(false, 0)
+}
+
 // Y is called before every instrumented statement.
 //
 //go:norace
 func Y(site int32) {
-	if !active {
+	if !active || coarse {
 		return
 	}
 	st.Steps++
@@ -365,7 +391,7 @@ func edge(why int32) {
 //
 //go:norace
 func Lock(m *sync.Mutex) {
-	if !active {
+	if !active || coarse {
 		m.Lock()
 		return
 	}
@@ -385,7 +411,7 @@ func Lock(m *sync.Mutex) {
 //go:norace
 func Unlock(m *sync.Mutex) {
 	m.Unlock()
-	if !active {
+	if !active || coarse {
 		return
 	}
 	wake(uintptr(unsafe.Pointer(m)))
@@ -407,7 +433,7 @@ func wake(addr uintptr) {
 //
 //go:norace
 func RLock(m *sync.RWMutex) {
-	if !active {
+	if !active || coarse {
 		m.RLock()
 		return
 	}
@@ -425,7 +451,7 @@ func RLock(m *sync.RWMutex) {
 //go:norace
 func RUnlock(m *sync.RWMutex) {
 	m.RUnlock()
-	if !active {
+	if !active || coarse {
 		return
 	}
 	wake(uintptr(unsafe.Pointer(m)))
@@ -435,7 +461,7 @@ func RUnlock(m *sync.RWMutex) {
 
 //go:norace
 func WLock(m *sync.RWMutex) {
-	if !active {
+	if !active || coarse {
 		m.Lock()
 		return
 	}
@@ -453,7 +479,7 @@ func WLock(m *sync.RWMutex) {
 //go:norace
 func WUnlock(m *sync.RWMutex) {
 	m.Unlock()
-	if !active {
+	if !active || coarse {
 		return
 	}
 	wake(uintptr(unsafe.Pointer(m)))
